@@ -575,10 +575,18 @@ pub struct HumanSpan {
 
 impl HumanSpan {
     fn from_range(before: Span, after: Span) -> Self {
+        let column_start = before.get_column();
+        // Diagnostics show a single source line: a construct continuing on further lines is
+        // reported up to the end of its first line.
+        let column_end = if after.location_line() == before.location_line() {
+            after.get_column()
+        } else {
+            column_start + before.fragment().lines().next().map_or(0, |line| line.len())
+        };
         Self {
             line: before.location_line() as usize,
-            column_start: before.get_column(),
-            column_end: after.get_column(),
+            column_start,
+            column_end,
         }
     }
 
